@@ -286,7 +286,11 @@ ProvReturnClauses(ev) ==
 
 PutReturnClauses(ev) ==
   IF s.cancelled \/ ev.err # "" THEN {}
-  ELSE Flag(s.putSent = LookupResult, "C06", "b_recipients_differ_from_lookup_result")
+  ELSE (IF c.optprov
+        \* optimistic provide also sends to very close peers before the lookup ends
+        THEN Flag(LookupResult \subseteq s.putSent, "C06", "b_lookup_result_peer_not_sent")
+             \cup Flag(s.putSent \subseteq Learned, "C06", "b_sent_to_unknown_peer")
+        ELSE Flag(s.putSent = LookupResult, "C06", "b_recipients_differ_from_lookup_result"))
        \cup (IF c.op = "putvalue" THEN Flag(ev.localval = c.putval, "C06", "a_not_stored_locally") ELSE {})
        \cup (IF c.op = "provide" THEN Flag(ev.selflocal, "C06", "c_self_not_recorded_locally") ELSE {})
 
@@ -339,6 +343,10 @@ Bg == Is("Bg") /\ Step(AddViol(Flag(Ev.n = 0, "C03", "e_background_work_left") \
 
 Left == Is("Left") /\ Step(AddViol(Flag(Ev.n = 0, "C03", "e_goroutines_after_close")))
 
+\* goroutines of the code under test were still blocked, with nothing left that could
+\* wake them, when the run ended (reported by the Go runtime at the synctest bubble exit)
+Stuck == Is("Stuck") /\ Step(AddViol({<<"C03", "e_goroutines_blocked_forever">>}))
+
 PreClose == Is("PreClose") /\ Step(AddViol(Flag(s.ret # NoRet, "C03", "a_no_return")))
 
 Closed == Is("Closed") /\ Step(AddViol(Flag(Ev.ok, "C03", "e_close_blocked")))
@@ -346,7 +354,7 @@ Closed == Is("Closed") /\ Step(AddViol(Flag(Ev.ok, "C03", "e_close_blocked")))
 End == Is("End") /\ Step(s)
 
 Next == RespSeed \/ RespPeer \/ ReqEv \/ TermEv \/ Sent \/ Deliver \/ Abort \/ Cancel
-        \/ Quiesce \/ Return \/ Emit \/ ChanClosed \/ Panic \/ Hang \/ Bg \/ Left \/ PreClose \/ Closed \/ End
+        \/ Quiesce \/ Return \/ Emit \/ ChanClosed \/ Panic \/ Hang \/ Bg \/ Left \/ Stuck \/ PreClose \/ Closed \/ End
 
 TraceSpec == Init /\ [][Next]_vars
 
